@@ -85,11 +85,11 @@ package ice
 
 // Cycle control (runs on the agent loop).
 //@ func (*Agent).GatherCandidates$1
-//@   props C18
+//@   props C18 C11
 //@   ghostvar cancelledPrevious bool = false
 //@   site call gatherCandidateCancel#1 ghost cancelledPrevious := true
 //@   site call gatherCandidates#1 assert only-from-state-new-with-a-handler: old(a.gatheringState) == GatheringStateNew
-//@   site call gatherCandidates#1 assert previous-cycle-cancelled-first: cancelledPrevious
+//@   site call gatherCandidates#1 assert C18 C11 previous-cycle-cancelled-first: cancelledPrevious
 //@   site call gatherCandidates#1 assert new-cycle-has-its-own-context-and-done-channel: arg1 == ctx && arg2 == done && a.gatherCandidateDone == done
 //@   ensures refused-once-the-state-left-new: old(a.gatheringState) != GatheringStateNew ==> gatherErr == ErrMultipleGatherAttempted && a.gatheringState == old(a.gatheringState) && a.gatherCandidateDone == old(a.gatherCandidateDone)
 
